@@ -383,6 +383,8 @@ fn run_property(prop: &str, ctx: &mut Ctx) {
                 let pens = vec![DEFAULT_PEN, [0, 1, 1, 0, 0], [3, 2, 2, 7, 5], [1000, 0, 4, 25, 0]];
                 frag_cases(ctx, "C03.optimal_fit.minimal_cost", "cost(returned) == min over all 2^(n-1) arrangements (documented cost model, exact integers) and <= cost(first-fit)",
                     l(4, 5), c03_optimal, true, pens);
+                frag_cases(ctx, "A6.smawk.call_shape", "assumed contract A6 of smawk::online_column_minima (call arguments and returned table shape)", l(4, 5), a6_smawk_shape, false, vec![DEFAULT_PEN]);
+                frag_random(ctx, "A6.smawk.call_shape.random", "same, longer random sequences", if th { 300_000 } else { 30_000 }, 40, true, a6_smawk_shape, false);
                 frag_random(ctx, "C03.optimal_fit.minimal_cost.random", "same, random sequences", if th { 300_000 } else { 30_000 }, if th { 14 } else { 10 }, false, c03_optimal, true);
                 let grid: Vec<Opts> = option_grid(true).into_iter().filter(|o| o.algo == Algo::OptimalFit && !o.break_words).collect();
                 ctx.text_grid("C03.wrap.minimal_cost_text", "optimal-fit, no force-breaking: each paragraph's lines are a minimum-cost arrangement of its fragments for the widths actually rendered",
@@ -412,6 +414,7 @@ fn run_property(prop: &str, ctx: &mut Ctx) {
             frag_random(ctx, "C06.first_fit.partition.random", "same, arbitrary finite f64", if th { 400_000 } else { 50_000 }, 16, true, c06_first_fit, false);
             #[cfg(feature = "full")]
             {
+                frag_cases(ctx, "A6.smawk.call_shape", "assumed contract A6 of smawk::online_column_minima (call arguments and returned table shape)", l(4, 5), a6_smawk_shape, false, vec![DEFAULT_PEN]);
                 frag_cases(ctx, "C06.optimal_fit.partition", "same for optimal-fit", l(4, 5), c06_optimal_fit, false, vec![DEFAULT_PEN, [0, 0, 1, 0, 0]]);
                 frag_random(ctx, "C06.optimal_fit.partition.random", "same, arbitrary finite f64", if th { 400_000 } else { 50_000 }, 16, true, c06_optimal_fit, false);
             }
@@ -502,6 +505,8 @@ fn replay(path: &str) -> i32 {
             "C02.wrap.first_fit_fits" => props_wrap::c02_fits(&TextCase::from_json(case)),
             #[cfg(feature = "full")]
             "C03.optimal_fit.minimal_cost" => c03_optimal(&FragCase::from_json(case)),
+            #[cfg(feature = "full")]
+            "A6.smawk.call_shape" => a6_smawk_shape(&FragCase::from_json(case)),
             #[cfg(all(feature = "full", fuzzing))]
             "C03.wrap.minimal_cost_text" => props_wrap::c03_text(&TextCase::from_json(case)),
             "C04.total.public_api" => c04_total(&TextCase::from_json(case)),
